@@ -8,8 +8,16 @@ Three kinds of cases:
   topo    discovery + spanning_tree over a physical directed multigraph of software switches under a virtual clock;
           history of connect / disconnect / flap / cut / restore / silence / advance / quiesce ops; at every quiescent point
           adjacency, LinkEvent stream, the calculated tree and the NO_FLOOD bits in the switches' own port tables
-          (by simulated floods over the physical cables) are judged
+          (by simulated floods over the physical cables) are judged.
+          Control connections also go down from inside the controller: "react" rules are an application's LinkEvent
+          listener that calls Connection.disconnect() on a switch from inside the handler (re-entrant ConnectionDown while
+          a batch of withdrawals is being announced); op "sendfail" makes the k-th port_mod / packet_out / message of any
+          type on a connection meet EPIPE (Connection.send drops the connection and defers the event; the world's settle()
+          closes it as the I/O loop would on its next pass); ops "dup" / "closeold" are a datapath that reconnects while its
+          previous connection is still open at the controller, and that stale connection being closed later.  The model
+          takes such a switch out of the connected set at that very moment; everything else is judged as before.
 """
+import errno
 import itertools
 import struct
 import types
@@ -46,6 +54,11 @@ ASSUMPTIONS = [
   "flood semantics: a switch sends a flooded frame out of every port except the ingress port and those with OFPPC_NO_FLOOD; "
   "NO_FLOOD on the ingress port does not block reception (OpenFlow 1.0)",
   "2-byte binary port ids whose two bytes are both ASCII digits are ambiguous by design of the receiver and not generated",
+  "a switch whose control connection the controller has dropped (application disconnect from a handler, failed send) counts as "
+  "disconnected from that moment; after a failed send the I/O loop closes the connection (ConnectionDown) as soon as the "
+  "running handler has returned",
+  "a datapath that opens a second control connection stops using the first one; the controller's end of the first stays open "
+  "until the history closes it (closeold); closing it changes nothing physical, so no link may be withdrawn for it",
 ]
 EXHAUSTIVE_SCOPE = {
   "quick": "static: every directed multigraph on <= 3 labelled switches with 2 cable slots per pair and each direction "
@@ -53,9 +66,15 @@ EXHAUSTIVE_SCOPE = {
            "link, 2 links}; topo: every graph on 2 switches with 16 states per pair and on 3 switches with 7 states per pair "
            "{none, one-way either direction, link, one-way + link either order, 2 links}, run to convergence through the real "
            "controller and switches; every graph on 3 switches with 3 states per pair x each switch disconnecting and reconnecting; "
-           "discovery.launch() options link_timeout in {default, 1, 2, 3, 4, 7, 20, 30} x explicit_drop x install_flow on two fixed graphs",
+           "discovery.launch() options link_timeout in {default, 1, 2, 3, 4, 7, 20, 30} x explicit_drop x install_flow on two fixed graphs; "
+           "every graph on 3 switches with 3 states per pair x each switch disconnecting or falling silent x a LinkEvent listener "
+           "that drops the withdrawn link's source / destination / a fixed other switch from inside the handler x listener before "
+           "or after spanning_tree's; the same graphs x each switch reconnecting while its old connection is open (4 orders of "
+           "closing the stale one); two base graphs + a hot-plugged port x each switch's connection breaking on the 1st/2nd "
+           "port_mod, 1st packet_out, 1st message x each single cable cut or other switch disconnecting",
   "thorough": "static: additionally 5 switches with 3 states per pair {none, link, one-way + link} and 4 switches with 7 states; "
-              "topo: every graph on <= 3 switches with 16 states per pair and on 4 switches with 5 states per pair",
+              "topo: every graph on <= 3 switches with 16 states per pair and on 4 switches with 5 states per pair; the listener "
+              "and overlapping-reconnect enumerations on 5 states per pair; a third base graph for send failures",
 }
 
 _S = {}
@@ -237,16 +256,45 @@ def _graph_labels(out, links):
 
 QUIESCE = 24.0
 
+_WORLD = []
+
+
+def _world():
+  """A NetWorld whose settle() also plays the part of the controller's I/O loop towards broken sockets: a connection
+  whose send failed (Connection.send has marked it disconnected and deferred the event) is closed on the loop's next
+  pass, i.e. once the handler that was running has returned."""
+  if not _WORLD:
+    from ..sim.net import NetWorld
+
+    class _LoopWorld(NetWorld):
+      def __init__(self, **kw):
+        NetWorld.__init__(self, **kw)
+        self.broken = []                        # controller-side connections with a failed send, in order of failure
+        self._closing = False
+
+      def settle(self, max_rounds=10000):
+        NetWorld.settle(self, max_rounds)
+        if self._settling or self._closing:     # called from inside a delivery / a close: the outermost call finishes the job
+          return
+        self._closing = True
+        try:
+          while self.broken:
+            self.broken.pop(0).close()
+            NetWorld.settle(self, max_rounds)
+        finally:
+          self._closing = False
+    _WORLD.append(_LoopWorld)
+  return _WORLD[0]()
+
 
 def case_topo(c, out):
-  from ..sim.net import NetWorld
   D, ST, of = _S["D"], _S["ST"], _S["of"]
   n = c["n"]
   cables = c["cables"]                       # [a, ap, b, bp, fwd, rev]
   opts = c.get("opts", {})
   dpids = c.get("dpids") or list(range(1, n + 1))
   _reset_modules()
-  w = NetWorld()
+  w = _world()
   try:
     lt = opts.get("link_timeout")
     D.launch(no_flow=not opts.get("install_flow", True), explicit_drop=opts.get("explicit_drop", True),
@@ -276,8 +324,9 @@ def case_topo(c, out):
         order_bad.append((k, last, bool(e.added), now))
       evs[k] = bool(e.added)
       if e.added:
-        # an announced link must be a cable over which a probe can travel right now
-        if k not in live_cables():
+        # an announced link must be a cable over which a probe can travel right now (a switch with a failed send is
+        # still a connected switch to the controller's components until its ConnectionDown has been raised)
+        if k not in live_cables(also=pending_down()):
           event_bad.append(("link-added-not-physical", k, now, "no live cable %r" % (k,), {}))
       else:
         # a withdrawal needs a reason: an end switch is gone, or no probe arrived over it for the timeout
@@ -294,8 +343,10 @@ def case_topo(c, out):
                      "never" if seen is None else "%.3f s ago" % (now - seen), TIMEOUT, CYCLE))
         if why:
           event_bad.append(("link-removed-unjustified", k, now, why,
+                            {"cause": "stale-connection-close"} if st_.get("op") == "closeold" else
                             {"during": {"disconnect": "switch-disconnect", "flap": "switch-disconnect", "connect": "switch-connect",
-                                        "adv": "time-passing", "quiesce": "time-passing", "portflap": "time-passing"}.get(st_.get("op"), "other")}))
+                                        "adv": "time-passing", "quiesce": "time-passing", "portflap": "time-passing",
+                                        "dup": "overlapping-reconnect"}.get(st_.get("op"), "other")}))
     # first in line: an exception in another listener must not hide the event from the observer
     disc.addListenerByName("LinkEvent", on_link, priority=10 ** 9)
     net = w.net
@@ -351,8 +402,8 @@ def case_topo(c, out):
       if dl is not None:
         cable_of[dl] = i_ // 2
 
-    def live_cables():
-      return set(dl for dl in up if up[dl] and dl[0] in connected and dl[2] in connected
+    def live_cables(also=()):
+      return set(dl for dl in up if up[dl] and (dl[0] in connected or dl[0] in also) and (dl[2] in connected or dl[2] in also)
                  and dl[0] not in silent and dl[2] not in silent
                  and (cable_of[dl] not in hot or cable_of[dl] in plugged))
 
@@ -363,6 +414,87 @@ def case_topo(c, out):
           del live_since[dl]
       for dl in lc:
         live_since.setdefault(dl, w.clock.now)
+
+    # -- control connections that go down from inside the controller (not by a history op of their own)
+    dropped = set()                 # switches whose connection went down that way in the course of the current op
+    zombies = []                    # their Link objects; taken off the world's list between ops
+    stale_cons = {}                 # dpid -> [Link]: older connections of a reconnected datapath whose controller end is still open
+    probeless = set()               # connected switches that saw an older connection of theirs closed after the current one came up
+
+    pending = []                    # (connection, dpid): sends that failed; ConnectionDown is due on the I/O loop's next pass
+
+    def pending_down():
+      return set(d_ for (con_, d_) in pending if con_ in w.broken)
+
+    deleted_ports = defaultdict(set)   # dpid -> ports deleted (PortStatus DELETE) since the switch's last ConnectionUp
+    readded_ports = set()              # (dpid, port) deleted and added again with the same number since then
+
+    def lose_connection(d, link):
+      """Bookkeeping for 'the controller's end of d's current connection is going down now'."""
+      connected.discard(d)
+      probeless.discard(d)
+      dropped.add(d)
+      churn[0] = w.clock.now
+      link.alive = False
+      w.switches[d].link = None
+      zombies.append(link)
+      sync_dead()
+      track_live()
+
+    def drop_now(d):
+      """An application calls Connection.disconnect() on d's connection from inside an event handler."""
+      link = w.switches[d].link
+      if d not in connected or link is None or not link.alive or link.con.connect_time is None:
+        return False                          # (an application only ever holds connections that have come up)
+      if any(dl[0] == d or dl[2] == d for dl in live_cables() if touches_tree([(dl[0], dl[1]), (dl[2], dl[3])])):
+        removed_tree_link[0] = True
+      lose_connection(d, link)
+      link.con.disconnect()
+      link.csock.close()
+      return True
+
+    rules = [dict(r, left=r.get("n", 1)) for r in c.get("react", [])]
+
+    def react(e):
+      k = tuple(e.link)
+      for r in rules:
+        if r["left"] <= 0 or (r["on"] != "any" and (r["on"] == "added") != bool(e.added)):
+          continue
+        if r.get("at") is not None and dpids[r["at"] % n] not in (k[0], k[2]):
+          continue
+        tgt = k[0] if r["drop"] == "src" else k[2] if r["drop"] == "dst" else dpids[r["drop"] % n]
+        if drop_now(tgt):
+          r["left"] -= 1
+          st_["reacted"] = st_.get("reacted", 0) + 1
+    if rules:
+      # an application's own LinkEvent listener, before or after spanning_tree's (default priority 0)
+      disc.addListenerByName("LinkEvent", react, priority=(1000 if c.get("react_first", True) else -1000))
+
+    OFPT = {"port_mod": of.OFPT_PORT_MOD, "packet_out": of.OFPT_PACKET_OUT, "any": None}
+
+    def arm(link, d, typ, nth):
+      """The nth message of the given type sent on this connection from now on meets a reset socket (EPIPE)."""
+      sock = link.csock
+      real = sock.send
+      left = [nth]
+      want = OFPT[typ]
+
+      def send(data, flags=0):
+        if left[0] > 0 and len(data) >= 2 and (want is None or data[1] == want):
+          left[0] -= 1
+          if left[0] == 0:
+            if w.switches[d].link is link and d in connected:
+              if any(dl[0] == d or dl[2] == d for dl in live_cables() if touches_tree([(dl[0], dl[1]), (dl[2], dl[3])])):
+                removed_tree_link[0] = True
+              lose_connection(d, link)
+              w.broken.append(link.con)
+              pending.append((link.con, d))
+              st_["send_failure_since_judge"] = {of.OFPT_PORT_MOD: "port_mod", of.OFPT_PACKET_OUT: "packet_out"}.get(data[1], "other")
+              st_.setdefault("send_failed", []).append(typ if want is not None else
+                                                       {of.OFPT_PORT_MOD: "port_mod", of.OFPT_PACKET_OUT: "packet_out"}.get(data[1], "other"))
+            raise OSError(errno.EPIPE, "Broken pipe")
+        return real(data, flags)
+      sock.send = send
 
     def noflood_bits():
       nf = set()
@@ -396,6 +528,8 @@ def case_topo(c, out):
                          if any((((d, p) in nf) != ((d, p) in lp and (d, p) not in tports)) for p in ports[d]))
       on_tree = any(deg[d] for d in offenders)
       st_["offenders"] = offenders
+      bad_ports = [(d, p) for d in offenders for p in ports[d] if ((d, p) in nf) != ((d, p) in lp and (d, p) not in tports)]
+      st_["offending_readded"] = bool(bad_ports) and all(dp in readded_ports for dp in bad_ports)
       state = "NO_FLOOD %r, adjacency %r" % (sorted(nf), sorted(got))
       for d in sorted(connected):
         bad = [p for p in ports[d] if (d, p) not in lp and (d, p) in nf]
@@ -436,9 +570,15 @@ def case_topo(c, out):
       got = set(tuple(l) for l in disc.adjacency)
       if got != want:
         missing, extra_ = sorted(want - got), sorted(got - want)
-        out.fail("adjacency", "t=%.3f physical live cables %r, adjacency %r (missing %r, extra %r)" % (
-            w.clock.now, sorted(want), sorted(got), missing, extra_),
-            shape=("missing" if missing else "") + ("+" if missing and extra_ else "") + ("stale" if extra_ else ""))
+        cause = {}
+        if missing and not extra_ and all(k[0] in probeless for k in missing):
+          # every missing link starts at a switch that is connected but had an older connection of its own closed
+          cause["cause"] = "stale-connection-close"
+        out.fail("adjacency", "t=%.3f physical live cables %r, adjacency %r (missing %r, extra %r)%s" % (
+            w.clock.now, sorted(want), sorted(got), missing, extra_,
+            "; switches %r are connected, but an older connection of theirs was closed after the present one came up" % (
+                sorted(probeless),) if probeless else ""),
+            shape=("missing" if missing else "") + ("+" if missing and extra_ else "") + ("stale" if extra_ else ""), **cause)
         return
       # the component's own calculation on the current adjacency
       try:
@@ -454,6 +594,7 @@ def case_topo(c, out):
         st_["flood_reports"] += 1
         offs = st_["offenders"]
         reconn = bool(offs) and all(d in st_.get("reconnected", ()) for d in offs)
+        readd = st_.get("offending_readded", False)
         # diagnosis for the root-cause key: does a recomputation on this (correct) adjacency repair it?
         try:
           ST._update_tree()
@@ -468,7 +609,12 @@ def case_topo(c, out):
           out.fail(clause, msg + "; removal events raised while the link was still in adjacency: %d; after a forced "
                    "_update_tree(): %s" % (stale[0], "repaired" if not again else "still wrong"),
                    removal_event_sees_link=bool(stale[0]), after_forced_update="fixed" if not again else "persists",
-                   offender_on_tree=on_tree, offender_reconnected=reconn)
+                   offender_on_tree=on_tree, offender_reconnected=reconn,
+                   # every port with a wrong bit was deleted and added again (same number) since its switch last connected
+                   offending_ports_deleted_and_readded=readd,
+                   # a control connection broke on a send of this type since the previous quiescent point
+                   send_failure=st_.get("send_failure_since_judge"))
+      st_["send_failure_since_judge"] = None
       st_["tree_before"] = set()
       for d, es in tree.items():
         for (w2, p) in es:
@@ -476,6 +622,11 @@ def case_topo(c, out):
 
     def touches_tree(ends):
       return any(e in st_["tree_before"] for e in ends)
+
+    def forget_ports(d):
+      deleted_ports[d].clear()
+      for dp in [dp for dp in readded_ports if dp[0] == d]:
+        readded_ports.discard(dp)
 
     def do_connect(d):
       if d not in connected:
@@ -486,6 +637,7 @@ def case_topo(c, out):
             out.label("history:reconnect")
         st_["was_connected"].add(d)
         connected.add(d)
+        forget_ports(d)
         churn[0] = w.clock.now
         sync_dead()
         track_live()
@@ -511,26 +663,43 @@ def case_topo(c, out):
     def immediate(kind, before, d=None):
       """Right after an op, before any virtual time passes."""
       after = adj_now()
+      gone = set(dropped)                     # connections that went down from inside the controller during this op
       if kind == "disconnect":
-        want = set(k for k in before if k[0] != d and k[2] != d)
+        gone.add(d)
+
+      def touches_gone(k):
+        return k[0] in gone or k[2] in gone
+      if kind == "disconnect":
+        want = set(k for k in before if not touches_gone(k))
         if after != want:
           out.fail("adjacency-after-disconnect",
-                   "t=%.3f switch %d disconnected: adjacency was %r, is %r, expected %r (wrongly withdrawn %r, still listed %r)" % (
-                       w.clock.now, d, sorted(before), sorted(after), sorted(want), sorted(want - after), sorted(after - want)),
+                   "t=%.3f switch %d disconnected%s: adjacency was %r, is %r, expected %r (wrongly withdrawn %r, still listed %r)" % (
+                       w.clock.now, d, (" (and, from a handler, %r)" % sorted(dropped)) if dropped else "",
+                       sorted(before), sorted(after), sorted(want), sorted(want - after), sorted(after - want)),
                    shape=("withdrawn-too-much" if want - after else "") + ("not-withdrawn" if after - want else ""))
       else:
-        lost = before - after
+        lost = set(k for k in before - after if not touches_gone(k))
+        kept = sorted(k for k in after if touches_gone(k))
         new_ = after - before
-        notphys = sorted(k for k in new_ if k not in live_cables())
-        if lost or notphys:
+        notphys = sorted(k for k in new_ if k not in live_cables() and not touches_gone(k))
+        if lost or notphys or kept:
+          extra_key = {}
+          if kind == "closeold":
+            extra_key["cause"] = "stale-connection-close"
           out.fail("adjacency-after-" + kind,
-                   "t=%.3f after %s: adjacency was %r, is %r (lost %r, added without a live cable %r)" % (
-                       w.clock.now, kind, sorted(before), sorted(after), sorted(lost), notphys),
-                   shape=("lost" if lost else "") + ("added" if notphys else ""))
+                   "t=%.3f after %s: adjacency was %r, is %r (lost %r, added without a live cable %r, still listed although "
+                   "their switch's connection went down %r)" % (
+                       w.clock.now, kind, sorted(before), sorted(after), sorted(lost), notphys, kept),
+                   shape=("lost" if lost else "") + ("added" if notphys else "") + ("not-withdrawn" if kept else ""), **extra_key)
 
     for op in c["ops"]:
       o = op["o"]
       st_["op"] = o
+      dropped.clear()
+      for z in zombies:
+        if z in w.links:
+          w.links.remove(z)
+      del zombies[:]
       track_live()
       before_op = adj_now()
       if o == "connect":
@@ -553,6 +722,43 @@ def case_topo(c, out):
           b2 = adj_now()
           do_connect(d)
           immediate("connect", b2)
+      elif o == "dup":
+        # the datapath opens a new control channel while its previous one is still open at the controller (it has not
+        # noticed yet that the peer is gone): the nexus now maps the dpid to the new connection
+        d = dpids[op["s"] % n]
+        sw_ = w.switches[d]
+        if d in connected and sw_.link is not None and sw_.link.alive:
+          old = sw_.link
+          old.alive = False                    # nothing the controller writes there arrives any more
+          if old in w.links:
+            w.links.remove(old)
+          sw_.link = None
+          stale_cons.setdefault(d, []).append(old)
+          probeless.discard(d)
+          forget_ports(d)
+          churn[0] = w.clock.now
+          net.connect(d, revive=d not in silent)
+          sync_dead()
+          w.settle()
+          st_["dup"] = True
+          immediate("dup", before_op)
+      elif o == "closeold":
+        # the controller's loop finds the oldest stale connection of a datapath closed
+        d = dpids[op["s"] % n]
+        if stale_cons.get(d):
+          old = stale_cons[d].pop(0)
+          if d in connected:
+            st_["stale_close"] = True
+            probeless.add(d)
+          old.con.close()
+          w.settle()
+          immediate("closeold", before_op)
+      elif o == "sendfail":
+        d = dpids[op["s"] % n]
+        link_ = w.switches[d].link
+        if d in connected and link_ is not None and link_.alive and not getattr(link_, "armed", False):
+          link_.armed = True
+          arm(link_, d, op["t"], op["k"])
       elif o in ("cut", "restore"):
         present = [dl for dl in dirs if dl is not None]
         if present:
@@ -581,6 +787,9 @@ def case_topo(c, out):
               if p_ not in ports[d]:
                 ports[d].append(p_)
                 ports[d].sort()
+              if p_ in deleted_ports[d]:
+                readded_ports.add((d, p_))
+                st_["readded"] = True
               net.add_port(d, p_)
             for dl in (dirs[2 * k], dirs[2 * k + 1]):
               if dl is not None:
@@ -599,6 +808,7 @@ def case_topo(c, out):
             for (d, p_) in ends:
               if p_ in ports[d]:
                 ports[d].remove(p_)
+              deleted_ports[d].add(p_)
               net.del_port(d, p_)
       elif o == "portflap":
         # the link state of a host port flaps: a burst of PortStatus MODIFY messages
@@ -658,6 +868,18 @@ def case_topo(c, out):
     for k in ("disconnect", "flap", "cut", "cutboth", "silence", "restore", "restoreboth", "plug", "unplug", "portflap"):
       if k in kinds:
         out.label("history:" + k)
+    # the following are labelled by what happened, not by what the history asked for
+    if st_.get("reacted"):
+      out.label("history:listener-dropped-a-switch")
+      out.label("listener:%s-spanning-tree" % ("before" if c.get("react_first", True) else "after"))
+    if st_.get("readded"):
+      out.label("history:port-deleted-and-readded")
+    if st_.get("dup"):
+      out.label("history:overlapping-reconnect")
+    if st_.get("stale_close"):
+      out.label("history:stale-connection-closed-while-reconnected")
+    for t_ in sorted(set(st_.get("send_failed", []))):
+      out.label("history:send-failed:" + t_)
     out.label("switches:%d" % n)
     for k in ("no_flood", "hold_down"):
       if opts.get(k):
@@ -829,6 +1051,66 @@ def enum_options(tier):
                  "ops": _converge_ops(3) + [{"o": "quiesce"}, {"o": "disconnect", "s": 2}, {"o": "quiesce"}, {"o": "quiesce"}]}
 
 
+def enum_reentrant(tier):
+  """An application's LinkEvent listener that drops a switch's control connection from inside the handler (re-entrant
+  ConnectionDown while a batch of withdrawals is being announced).  Every graph on 3 switches x the batch is caused by a
+  disconnect or by a switch falling silent (expiry sweep) x the listener drops the link's source / its destination / a fixed
+  other switch x the listener runs before or after spanning_tree's; then everything reconnects."""
+  states = _PAIR3 if tier == "quick" else _PAIR5
+  for cables in _graphs(3, states):
+    if not cables:
+      continue
+    for s_ in range(3):
+      for trig in ("disconnect", "silence"):
+        for rule in ({"on": "removed", "at": None, "drop": "src", "n": 3},
+                     {"on": "removed", "at": None, "drop": "dst", "n": 3},
+                     {"on": "removed", "at": s_, "drop": (s_ + 1) % 3, "n": 1}):
+          for first in (True, False):
+            yield {"k": "topo", "n": 3, "cables": cables, "extra": 1, "opts": {}, "react": [rule], "react_first": first,
+                   "ops": _converge_ops(3) + [{"o": trig, "s": s_}, {"o": "quiesce"}, {"o": "unsilence", "s": s_}]
+                   + _converge_ops(3)}
+
+
+def enum_overlap(tier):
+  """A datapath opens a new control channel before the controller has closed the previous one (once or twice), and the
+  stale connection(s) are closed afterwards; every graph on 3 switches x each switch."""
+  states = _PAIR3 if tier == "quick" else _PAIR5
+  for cables in _graphs(3, states):
+    if not cables:
+      continue
+    for s_ in range(3):
+      d, c_, q = {"o": "dup", "s": s_}, {"o": "closeold", "s": s_}, {"o": "quiesce"}
+      for tail in ([d, q, c_, q], [d, c_, q], [d, d, c_, q, c_, q], [d, {"o": "adv", "dt": 20}, c_, {"o": "adv", "dt": 41}, q]):
+        yield {"k": "topo", "n": 3, "cables": cables, "extra": 1, "opts": {}, "ops": _converge_ops(3) + tail}
+
+
+def enum_sendfail(tier):
+  """A control connection breaks on a send (EPIPE on the k-th port_mod / packet_out / message of any type) while the topology
+  changes elsewhere.  Switch 0 gets a port hot-plugged towards switch 3 (which is silent in half of the cases, so that no link
+  forms there); switches 1..3 carry a base graph; each switch's connection in turn is the one that breaks; each single change
+  of the base graph (one direction or both directions of a cable cut, another switch disconnecting) is the trigger."""
+  bases = [[[1, 1, 2, 1, 1, 1], [1, 2, 2, 2, 1, 1]],
+           [[1, 1, 2, 1, 1, 1], [1, 2, 2, 2, 1, 1], [2, 3, 3, 1, 1, 1]]]
+  if tier == "thorough":
+    bases.append([[1, 1, 2, 1, 1, 1], [2, 2, 3, 1, 1, 1], [1, 2, 3, 2, 1, 1]])
+  for base in bases:
+    p3 = 1 + max([bp for (a, ap, b, bp, f, r) in base if b == 3] + [0])
+    cables = base + [[0, 1, 3, p3, 1, 1]]
+    hot = [len(cables) - 1]
+    trig = [{"o": "cut", "c": i} for i in range(2 * len(base))] + [{"o": "cutboth", "c": i} for i in range(len(base))]
+    trig += [{"o": "disconnect", "s": i} for i in (1, 2)]
+    for silent3 in (True, False):
+      for x in range(4):
+        for (t, k) in (("port_mod", 1), ("port_mod", 2), ("packet_out", 1), ("any", 1)):
+          for tr in trig:
+            if tr["o"] == "disconnect" and tr["s"] == x:
+              continue
+            yield {"k": "topo", "n": 4, "cables": cables, "hot": hot, "extra": 1, "opts": {},
+                   "ops": _converge_ops(4) + ([{"o": "silence", "s": 3}] if silent3 else [])
+                   + [{"o": "plug", "c": 0}, {"o": "sendfail", "s": x, "t": t, "k": k}, tr, {"o": "quiesce"},
+                      {"o": "connect", "s": x}, {"o": "quiesce"}]}
+
+
 _B64 = [0, 1, 2, 0xff, 0x100, 0xffff, 0x10000, 0xffffffff, 0x100000000, (1 << 48) - 1, 1 << 48, (1 << 48) + 1,
         (1 << 63) - 1, 1 << 63, (1 << 64) - 2, (1 << 64) - 1, 0x0123456789abcdef, 0xa, 0xabcdef, 0xdead00000000beef]
 _B16 = [1, 2, 9, 10, 99, 100, 255, 256, 999, 1000, 0x3030, 0x3031, 0x7fff, 0x8000, 9999, 10000, 0xfefe, 0xfeff]
@@ -931,6 +1213,10 @@ def _topo(draw, nmax, maxops):
       st.fixed_dictionaries({"o": st.just("portflap"), "s": sw, "k": st.sampled_from([3, 10, 40, 100, 130]),
                              "dt": st.sampled_from([0, 1, 1, 2, 4])}),
       st.fixed_dictionaries({"o": st.just("adv"), "dt": st.sampled_from([1, 8, 20, 40, 41, 80, 100, 120])}),
+      st.fixed_dictionaries({"o": st.just("dup"), "s": sw}),
+      st.fixed_dictionaries({"o": st.just("closeold"), "s": sw}),
+      st.fixed_dictionaries({"o": st.just("sendfail"), "s": sw, "t": st.sampled_from(["port_mod", "port_mod", "packet_out", "any"]),
+                             "k": st.sampled_from([1, 1, 2, 3])}),
       st.just({"o": "quiesce"}),
       st.just({"o": "quiesce"}),
   )
@@ -967,7 +1253,16 @@ def _topo(draw, nmax, maxops):
   hot = []
   if cables and draw(st.booleans()):
     hot = draw(st.lists(st.integers(0, len(cables) - 1), min_size=1, max_size=2, unique=True))
-  return {"k": "topo", "n": n, "cables": cables, "hot": hot, "extra": draw(st.integers(1, 2)), "opts": opts, "ops": ops}
+  case = {"k": "topo", "n": n, "cables": cables, "hot": hot, "extra": draw(st.integers(1, 2)), "opts": opts, "ops": ops}
+  # in a third of the histories an application listens to LinkEvents and drops control connections from inside its handler
+  if draw(st.integers(0, 2)) == 0:
+    rule = st.fixed_dictionaries({"on": st.sampled_from(["removed", "removed", "added", "any"]),
+                                  "at": st.one_of(st.none(), sw),
+                                  "drop": st.one_of(st.sampled_from(["src", "dst"]), sw),
+                                  "n": st.integers(1, 3)})
+    case["react"] = draw(st.lists(rule, min_size=1, max_size=2))
+    case["react_first"] = draw(st.booleans())
+  return case
 
 
 def plan(tier):
@@ -979,6 +1274,9 @@ def plan(tier):
             Enum("launch-options", lambda: enum_options("quick"), shards=16),
             Enum("hot-plugged-cable", lambda: enum_hotplug("quick"), shards=16),
             Enum("flapping-host-port", lambda: enum_portflap("quick"), shards=16),
+            Enum("listener-drops-a-switch", lambda: enum_reentrant("quick"), shards=16),
+            Enum("overlapping-reconnect", lambda: enum_overlap("quick"), shards=16),
+            Enum("send-failure", lambda: enum_sendfail("quick"), shards=16),
             Hyp("probe-random", _probe, examples=400, shards=4),
             Hyp("static-random", lambda: _static(8), examples=2000, shards=4),
             Hyp("histories", lambda: _topo(5, 8), examples=900, shards=16)]
@@ -989,6 +1287,9 @@ def plan(tier):
           Enum("launch-options", lambda: enum_options("thorough"), shards=16),
           Enum("hot-plugged-cable", lambda: enum_hotplug("thorough"), shards=16),
           Enum("flapping-host-port", lambda: enum_portflap("thorough"), shards=16),
+          Enum("listener-drops-a-switch", lambda: enum_reentrant("thorough"), shards=16),
+          Enum("overlapping-reconnect", lambda: enum_overlap("thorough"), shards=16),
+          Enum("send-failure", lambda: enum_sendfail("thorough"), shards=16),
           Hyp("probe-random", _probe, examples=6000, shards=8),
           Hyp("static-random", lambda: _static(12), examples=40000, shards=8),
           Hyp("histories", lambda: _topo(12, 20), examples=12000, shards=16)]
